@@ -111,8 +111,8 @@ type rig struct {
 	posBad    int32
 
 	// gates
-	auto       atomic.Bool
-	autoCh     chan struct{}
+	auto         atomic.Bool
+	autoCh       chan struct{}
 	procGate     chan struct{}
 	procEntered  atomic.Int32 // fakes that reached the Process gate
 	procReleased atomic.Int32 // tokens the harness handed out
@@ -602,13 +602,13 @@ func runLock(env []string) obs {
 // ---------- free running ----------
 
 type raceIn struct {
-	NRec   int   `json:"nrec"`
-	Reqs   []int `json:"reqs"`   // per requester goroutine: 1 = open ok, 0 = open fails
-	Cancel []int `json:"cancel"` // per requester: cancel after this many microseconds (0 = never)
-	Delay  []int `json:"delay"`  // per requester: start after this many microseconds
-	End    string `json:"end"`   // "close" | "kill"
-	EndAt  int   `json:"endat"`  // kill after this many microseconds (kill only)
-	Jit    int   `json:"jit"`    // max jitter in Process (microseconds)
+	NRec   int    `json:"nrec"`
+	Reqs   []int  `json:"reqs"`   // per requester goroutine: 1 = open ok, 0 = open fails
+	Cancel []int  `json:"cancel"` // per requester: cancel after this many microseconds (0 = never)
+	Delay  []int  `json:"delay"`  // per requester: start after this many microseconds
+	End    string `json:"end"`    // "close" | "kill"
+	EndAt  int    `json:"endat"`  // kill after this many microseconds (kill only)
+	Jit    int    `json:"jit"`    // max jitter in Process (microseconds)
 	Seed   uint64 `json:"seed"`
 }
 
@@ -741,15 +741,26 @@ func canonGens(o obs) obs {
 
 // ---------- service level ----------
 
+// svcObs: what one processor node of the chain did (the same observation as for a single node)
+type svcObs struct {
+	Procs []string `json:"procs"`
+	Per   []obs    `json:"per"` // one projection per processor of the chain, in chain order
+	PosOK bool     `json:"posok"`
+	Hung  bool     `json:"hung"`
+	Note  string   `json:"note,omitempty"`
+}
+
 // runSvc drives the REAL lifecycle.Service.ReconfigureProcessor (processor.Service.
 // MakeRunnableProcessorForReconfigure, RunnableProcessor.TeardownForReconfigure, the node swap)
-// on a running v1 pipeline s1 -> p1 -> d1. ops: "e<n>" the source hands out n records, "r1"/"r0"
-// reconfigure p1 (new instance opens / refuses to open), "w" wait until quiet, "x" StopAndWait.
-// Requests are issued one at a time, so request q builds processor instance q+2 = generation q+1.
-func runSvc(ops []string) obs {
-	var o obs
-	o.PosOK = true
-	sys, err := stopx.NewSys(stopx.Topo{Engine: "v1", Sources: 1, Dests: 1, Procs: 1})
+// on a running v1 pipeline s1 -> procs... -> d1. The processor ids may be prefixes of one another
+// (p1, p10, p1x). Every processor instance appends (its id, its instance number) to the record.
+// ops: "e<n>" the source hands out n records, "r1:<id>"/"r0:<id>" reconfigure processor id (new
+// instance opens / refuses to open; without ":<id>" the first processor), "w" wait until quiet,
+// "x" StopAndWait. Requests are issued one at a time, so the q-th request for a processor builds
+// its instance q+2 = generation q+1.
+func runSvc(procs []string, ops []string) svcObs {
+	o := svcObs{Procs: procs, PosOK: true}
+	sys, err := stopx.NewSys(stopx.Topo{Engine: "v1", Sources: 1, Dests: 1, ProcNames: procs})
 	if err != nil {
 		o.Note = "setup: " + err.Error()
 		o.Hung = true
@@ -765,14 +776,26 @@ func runSvc(ops []string) obs {
 	}
 	stopped := false
 	var notes []string
+	res := map[string][]reqObs{}
 	probe := func(wantRunning bool) {
 		// the running flag guards Update: a running processor must refuse it, a stopped one accept it
-		_, uerr := sys.PRS.Update(context.Background(), "p1", "fake-proc", processor.Config{Settings: map[string]string{}, Workers: 1})
-		refused := errors.Is(uerr, processor.ErrProcessorRunning)
-		if refused != wantRunning {
-			o.PosOK = false
-			notes = append(notes, fmt.Sprintf("running flag: Update refused=%v, want %v", refused, wantRunning))
+		for _, id := range procs {
+			_, uerr := sys.PRS.Update(context.Background(), id, "fake-proc", processor.Config{Settings: map[string]string{}, Workers: 1})
+			refused := errors.Is(uerr, processor.ErrProcessorRunning)
+			if refused != wantRunning {
+				o.PosOK = false
+				notes = append(notes, fmt.Sprintf("running flag of %s: Update refused=%v, want %v", id, refused, wantRunning))
+			}
 		}
+	}
+	stop := func() {
+		_, sd := sys.Call("stopwait")
+		if !stopx.WaitCh(sd, 25*time.Second) {
+			o.Hung = true
+			notes = append(notes, "StopAndWait")
+		}
+		stopped = true
+		probe(false)
 	}
 	for _, op := range ops {
 		switch {
@@ -782,133 +805,200 @@ func runSvc(ops []string) obs {
 				n = 1
 			}
 			w.Emit("s1", n)
-		case op == "r1" || op == "r0":
+		case strings.HasPrefix(op, "r1") || strings.HasPrefix(op, "r0"):
 			if stopped {
 				continue
 			}
+			id := procs[0]
+			if i := strings.Index(op, ":"); i >= 0 {
+				id = op[i+1:]
+			}
+			known := false
+			for _, p := range procs {
+				known = known || p == id
+			}
+			if !known {
+				continue
+			}
+			openOK := op[1] == '1'
 			ctx, cancel := context.WithTimeout(context.Background(), 5*time.Second)
-			rerr := sys.Reconfigure(ctx, "p1", op == "r1")
+			rerr := sys.Reconfigure(ctx, id, openOK)
 			cancel()
-			res := "busy"
+			r := "busy"
 			switch {
 			case rerr == nil:
-				res = "ok"
+				r = "ok"
 			case errors.Is(rerr, stopx.ErrProcOpen):
-				res = "erropen"
+				r = "erropen"
 			case errors.Is(rerr, context.DeadlineExceeded) || errors.Is(rerr, context.Canceled):
-				res = "cancelled"
+				r = "cancelled"
 				o.Hung = true
 				notes = append(notes, "ReconfigureProcessor did not return")
 			}
-			o.Res = append(o.Res, reqObs{op == "r1", res})
+			res[id] = append(res[id], reqObs{openOK, r})
 			probe(true)
 		case op == "w":
 			w.Settle(300*time.Microsecond, 20*time.Millisecond)
 		case op == "x":
 			if !stopped {
-				_, sd := sys.Call("stopwait")
-				if !stopx.WaitCh(sd, 25*time.Second) {
-					o.Hung = true
-					notes = append(notes, "StopAndWait")
-				}
-				stopped = true
-				probe(false)
+				stop()
 			}
 		}
 	}
 	if !stopped {
 		w.Settle(300*time.Microsecond, 20*time.Millisecond)
-		_, sd := sys.Call("stopwait")
-		if !stopx.WaitCh(sd, 25*time.Second) {
-			o.Hung = true
-			notes = append(notes, "StopAndWait")
-		}
-		probe(false)
+		stop()
 	}
-	// translate the service log into the node calls
+
+	// translate the service log into the calls of every processor node
 	all := w.Events()
-	lastPtd, lastWrite := -1, 0
-	for i, e := range all {
-		if e.K == "ptd" && e.C == "p1" {
-			lastPtd = i
+	chain := strings.Join(procs, ",")
+	lastWrite := 0
+	stamps := map[int]map[string][]int{} // record -> processor id -> instances that stamped it
+	for _, e := range all {
+		if e.K != "dwrite" {
+			continue
+		}
+		if e.N != lastWrite+1 { // the destination receives the records in order, each once
+			o.PosOK = false
+			notes = append(notes, "destination order")
+		}
+		lastWrite = e.N
+		var ids []string
+		m := map[string][]int{}
+		for _, ent := range strings.Split(strings.TrimSuffix(e.X, ";"), ";") {
+			if ent == "" {
+				continue
+			}
+			f := strings.SplitN(ent, "#", 2)
+			inst := 0
+			if len(f) == 2 {
+				inst, _ = strconv.Atoi(f[1])
+			}
+			ids = append(ids, f[0])
+			m[f[0]] = append(m[f[0]], inst)
+		}
+		stamps[e.N] = m
+		// exactly one stamp per processor of the chain, in chain order
+		if strings.Join(ids, ",") != chain {
+			o.PosOK = false
+			notes = append(notes, fmt.Sprintf("record %d carries stamps %q, chain is %q", e.N, e.X, chain))
 		}
 	}
-	for i, e := range all {
-		switch e.K {
-		case "popen":
-			if e.C == "p1" {
-				o.Evs = append(o.Evs, nev{"open", e.N - 1, 1})
-			}
-		case "popenfail":
-			if e.C == "p1" {
-				o.Evs = append(o.Evs, nev{"open", e.N - 1, 0})
-			}
-		case "ptd":
-			if e.C == "p1" {
-				// the plugin cannot tell the two teardown flavours apart; the running flag is probed instead
-				o.Evs = append(o.Evs, nev{"tear", e.N - 1, b2i(i != lastPtd)})
-			}
-		case "proc":
-			if e.C == "p1" {
-				inst, _ := strconv.Atoi(e.A)
-				o.Evs = append(o.Evs, nev{"proc", e.N - 1, inst - 1})
-				o.Taken++
-				// at this level a record leaves the node unobserved; what the destination later receives
-				// (the stamp it carries) is reported as the node's output of that record
-				stamp, seen := -1, false
-				for _, d := range all {
-					if d.K == "dwrite" && d.N == e.N {
-						st, _ := strconv.Atoi(d.A)
-						stamp, seen = st-1, true
-						break
-					}
-				}
-				if seen {
-					o.Evs = append(o.Evs, nev{"out", e.N - 1, stamp})
-				} else {
-					o.Evs = append(o.Evs, nev{"nack", e.N - 1, 0})
-				}
-			}
-		case "dwrite":
-			if e.N != lastWrite+1 { // the destination receives the records in order, each once
-				o.PosOK = false
-				notes = append(notes, "destination order")
-			}
-			lastWrite = e.N
-		case "pack":
-			o.Acks = append(o.Acks, e.N-1)
+	var acks []int
+	for _, e := range all {
+		if e.K == "pack" {
+			acks = append(acks, e.N-1)
 		}
+	}
+	for _, id := range procs {
+		po := obs{PosOK: true, Res: res[id], Acks: acks}
+		lastPtd := -1
+		for i, e := range all {
+			if e.K == "ptd" && e.C == id {
+				lastPtd = i
+			}
+		}
+		for i, e := range all {
+			if e.C != id {
+				continue
+			}
+			switch e.K {
+			case "popen":
+				po.Evs = append(po.Evs, nev{"open", e.N - 1, 1})
+			case "popenfail":
+				po.Evs = append(po.Evs, nev{"open", e.N - 1, 0})
+			case "ptd":
+				// the plugin cannot tell the two teardown flavours apart; the running flag is probed instead
+				po.Evs = append(po.Evs, nev{"tear", e.N - 1, b2i(i != lastPtd)})
+			case "proc":
+				inst, _ := strconv.Atoi(e.A)
+				po.Evs = append(po.Evs, nev{"proc", e.N - 1, inst - 1})
+				po.Taken++
+				// at this level a record leaves the node unobserved; the stamp the destination later
+				// finds for this processor is reported as the node's output of that record
+				if m, ok := stamps[e.N]; ok && len(m[id]) > 0 {
+					po.Evs = append(po.Evs, nev{"out", e.N - 1, m[id][0] - 1})
+				} else if ok {
+					po.Evs = append(po.Evs, nev{"out", e.N - 1, -1})
+				} else {
+					po.Evs = append(po.Evs, nev{"nack", e.N - 1, 0})
+				}
+			}
+		}
+		o.Per = append(o.Per, po)
 	}
 	o.Note = strings.Join(notes, ";")
 	return o
 }
 
-func emitSvc(w *hx.Writer, ops []string) {
-	o := runSvc(ops)
-	evs, res, acks := obsCoq(o)
-	w.Add(map[string]any{"input": map[string]any{"kind": "svc", "ops": ops}, "observed": o},
-		fmt.Sprintf("SRace %s %s %s %d %s %s true", evs, res, acks, o.Taken, hx.Bool(o.PosOK), hx.Bool(o.Hung)))
+func emitSvc(w *hx.Writer, procs []string, ops []string) {
+	o := runSvc(procs, ops)
+	items := make([]string, len(o.Per))
+	for i, po := range o.Per {
+		evs, res, acks := obsCoq(po)
+		items[i] = fmt.Sprintf("(%s, %s, %s, %d)", evs, res, acks, po.Taken)
+	}
+	w.Add(map[string]any{"input": map[string]any{"kind": "svc", "procs": procs, "ops": ops}, "observed": o},
+		fmt.Sprintf("SChain %s %s %s", hx.List(items), hx.Bool(o.PosOK), hx.Bool(o.Hung)))
 }
 
-func genSvc(r *hx.Rand) []string {
-	n := r.Range(2, 10)
-	ops := make([]string, 0, n)
-	for i := 0; i < n; i++ {
-		x := r.Intn(100)
-		switch {
-		case x < 45:
-			ops = append(ops, "e"+strconv.Itoa(r.Range(1, 3)))
-		case x < 70:
-			ops = append(ops, "r1")
-		case x < 82:
-			ops = append(ops, "r0")
-		case x < 95:
+var chainIDs = []string{"p1", "p10", "p1x"}
+
+// every order of every 2- and 3-element subset of the prefix-related ids, plus the single processor
+func chains() [][]string {
+	out := [][]string{{"p1"}}
+	for i := range chainIDs {
+		for j := range chainIDs {
+			if i == j {
+				continue
+			}
+			out = append(out, []string{chainIDs[i], chainIDs[j]})
+			for k := range chainIDs {
+				if k != i && k != j {
+					out = append(out, []string{chainIDs[i], chainIDs[j], chainIDs[k]})
+				}
+			}
+		}
+	}
+	return out
+}
+
+// genSvc: records flow; every processor of the chain is reconfigured in turn (some with a failing Open)
+func genSvc(r *hx.Rand, procs []string) []string {
+	ops := []string{"e" + strconv.Itoa(r.Range(1, 3))}
+	if r.Bool() {
+		ops = append(ops, "w")
+	}
+	order := append([]string{}, procs...)
+	if r.Bool() { // reverse
+		for i, j := 0, len(order)-1; i < j; i, j = i+1, j-1 {
+			order[i], order[j] = order[j], order[i]
+		}
+	}
+	for _, id := range order {
+		if r.Chance(1, 5) {
+			ops = append(ops, "r0:"+id)
+		}
+		ops = append(ops, "r1:"+id, "e"+strconv.Itoa(r.Range(1, 3)))
+		if r.Bool() {
 			ops = append(ops, "w")
+		}
+	}
+	n := r.Intn(4)
+	for i := 0; i < n; i++ {
+		switch r.Intn(4) {
+		case 0:
+			ops = append(ops, "r1:"+procs[r.Intn(len(procs))])
+		case 1:
+			ops = append(ops, "r0:"+procs[r.Intn(len(procs))])
+		case 2:
+			ops = append(ops, "e"+strconv.Itoa(r.Range(1, 3)))
 		default:
 			ops = append(ops, "x")
 		}
 	}
-	return ops
+	return append(ops, "e1", "w")
 }
 
 // ---------- engine v2 ----------
@@ -1128,11 +1218,21 @@ func main() {
 			} {
 				emitLock(w, e)
 			}
+			// prefix-related processor ids, the longer one first / last: each is reconfigured in turn
+			for _, c := range [][]string{{"p10", "p1"}, {"p1", "p10"}, {"p1x", "p10", "p1"}, {"p1", "p1x", "p10"}} {
+				ops := []string{"e2", "w"}
+				for _, id := range c {
+					ops = append(ops, "r1:"+id, "e2", "w")
+				}
+				emitSvc(w, c, ops)
+			}
 		}
 		for i := 0; i < o.N; i++ {
 			r := root.Fork(uint64(o.Shard)<<32 | uint64(i))
 			if i%10 == 9 {
-				emitSvc(w, genSvc(r))
+				cs := chains()
+				procs := cs[(o.Shard*o.N/10+i/10)%len(cs)]
+				emitSvc(w, procs, genSvc(r, procs))
 			} else if i%5 == 4 {
 				emitRace(w, genRace(r))
 			} else {
@@ -1184,11 +1284,19 @@ func replayOne(w *hx.Writer, m map[string]any) {
 		}
 		emitRace(w, c)
 	case "svc":
-		var ops []string
+		var ops, procs []string
 		for _, x := range in["ops"].([]any) {
 			ops = append(ops, x.(string))
 		}
-		emitSvc(w, ops)
+		if ps, ok := in["procs"].([]any); ok {
+			for _, x := range ps {
+				procs = append(procs, x.(string))
+			}
+		}
+		if len(procs) == 0 {
+			procs = []string{"p1"}
+		}
+		emitSvc(w, procs, ops)
 	case "v2":
 		emitV2(w)
 	}
